@@ -12,8 +12,8 @@ typedef struct tbuf {
     struct tbuf *next;
     int tid;
     rng_t rng;
-    long perturbs, swaps;
-    int started;
+    long perturbs, swaps, sched_none;
+    int started, last_none;
 } tbuf_t;
 
 static __thread tbuf_t *tls;
@@ -45,6 +45,12 @@ static void event_cb(int kind, long a, long b, long c, long d, long e, long f)
 {
     if (!g_events_on) return;
     tbuf_t *t = tls ? tls : tls_init();
+    if (kind == SLUV_E_SCHED && b < 0) {
+        /* idle scheduler polls: count all of them, log only the first of a streak */
+        t->sched_none++;
+        if (t->last_none) return;
+        t->last_none = 1;
+    } else if (kind == SLUV_E_SCHED) t->last_none = 0;
     if (t->n == t->cap) { t->cap = t->cap ? t->cap * 2 : 1024; t->ev = realloc(t->ev, t->cap * sizeof(ev_t)); }
     ev_t *x = &t->ev[t->n++];
     if (kind == SLUV_E_PRUNE_BEGIN || kind == SLUV_E_PRUNE_END) f = t->swaps;
@@ -159,6 +165,7 @@ size_t mon_collect(ev_t **out)
     return tot;
 }
 long mon_perturbs(void) { long s = 0; for (tbuf_t *t = all_bufs; t; t = t->next) s += t->perturbs; return s; }
+long mon_sched_none(void) { long s = 0; for (tbuf_t *t = all_bufs; t; t = t->next) s += t->sched_none; return s; }
 long mon_swaps(void) { long s = 0; for (tbuf_t *t = all_bufs; t; t = t->next) s += t->swaps; return s; }
 int mon_threads_seen(void) { int k = 0; for (tbuf_t *t = all_bufs; t; t = t->next) if (t->n) ++k; return k; }
 
